@@ -305,7 +305,8 @@ def first_match_rule(rep, prog, cfg):
         b = bs[0]
         calls = []
         allnames = set()
-        for fb in family(prog, b):
+        from ..common import with_private_callees
+        for fb in with_private_callees(prog, b):
             calls += iter_calls(fb)
             for bb, t in fb.calls():
                 allnames.update(callee_names(t))
@@ -325,7 +326,32 @@ def first_match_rule(rep, prog, cfg):
             # (closure form: the closure's parameter; loop form: the element the forward iterator just yielded, which must
             # also be the element whose key was compared)
             ok = False
-            for fb in family(prog, b):
+            from ..common import with_private_callees
+            fam = with_private_callees(prog, b)          # the body may sit in a private method of the container (`take_first`)
+            # find-then-take form: `let slot = iter_mut().find(|f| matches!(f, Some((k, _)) if k == key))?; slot.take()` — the
+            # element emptied is the one the forward `find` returned, and its predicate compares the element's key
+            for fb in fam:
+                fl0 = Flow(fb)
+                finds = {bb: t for bb, t in fb.calls() if IT + "find" in callee_names(t)}
+                for bb, t in fb.calls():
+                    if "core::option::Option::take" in callee_names(t):
+                        lv, _ = fl0.sources([op_local(t["args"][0])], through_call=identity_through, follow_mut=False)
+                        for x in lv:
+                            if x[0] == "call" and x[1] in finds:
+                                from ..scans import closure_of_local
+                                pb = None
+                                for a in finds[x[1]]["args"]:
+                                    if op_local(a) is not None and "closure@" in fb.local_ty(op_local(a)):
+                                        pb = closure_of_local(prog, fb, op_local(a))
+                                if pb is not None:
+                                    flp = Flow(pb)
+                                    for _, t2 in pb.calls():
+                                        if any(n.endswith(("PartialEq::eq", "::eq", "PartialEq::ne", "::ne")) for n in callee_names(t2)) and len(t2["args"]) == 2:
+                                            srcs = [flp.sources([op_local(a)] if op_local(a) is not None else [], through_call=identity_through, follow_mut=False)[0]
+                                                    for a in t2["args"]]
+                                            if any(("param", 2) in sx for sx in srcs):
+                                                ok = True
+            for fb in fam:
                 fl = Flow(fb)
                 nexts = {bb for bb, t in fb.calls() if IT + "next" in callee_names(t)}
                 for bb, t in fb.calls():
